@@ -313,8 +313,17 @@ func (o *OperandPegImpl) CalcOffsetByteSize() int {
 			if memInfo.BaseReg == "EBP" {
 				return 1 // disp8=0 for [EBP+index*scale]
 			}
+			// ベースなしの [index*scale] は mod=00 + SIB.base=101 + disp32
+			if memInfo.BaseReg == "" && is32BitIndex(memInfo.IndexReg) {
+				return 4
+			}
 			// Other cases like [BX], [SI], [BX+SI] etc. need no offset bytes with ModRM mode 00.
 			return 0
+		}
+
+		// ベースなしの [index*scale+disp] は常に disp32
+		if memInfo.BaseReg == "" && is32BitIndex(memInfo.IndexReg) {
+			return 4
 		}
 
 		// ディスプレースメントがある場合
@@ -549,4 +558,9 @@ func uses32BitAddressing(mem *MemoryInfo, mode cpu.BitMode) bool {
 		return mode == cpu.MODE_32BIT
 	}
 	return strings.HasPrefix(mem.BaseReg, "E") || strings.HasPrefix(mem.IndexReg, "E")
+}
+
+// is32BitIndex は 32 ビットのインデックスレジスタ名かどうかを返します。
+func is32BitIndex(reg string) bool {
+	return len(reg) == 3 && strings.HasPrefix(reg, "E")
 }
